@@ -32,7 +32,9 @@ static void h_join(int argc, char **argv)
     PUThread *t; pint rc; long base = mc_blocks_outstanding();
     use_return = argc < 1 || argv[0][0] == 'r'; exit_code = use_return ? 0 : atoi(argv[0]);
     mc_name(&shared_var, sizeof shared_var, "harness.shared_var");
-    t = p_uthread_create(join_body, NULL, TRUE, NULL);
+    /* second argument f: the full constructor with an explicit priority, a stack size and a name */
+    if (argc > 1 && argv[1][0] == 'f') t = p_uthread_create_full(join_body, NULL, TRUE, P_UTHREAD_PRIORITY_HIGH, 262144, "a-named-worker-thread");
+    else t = p_uthread_create(join_body, NULL, TRUE, NULL);
     if (!t) mc_fail("C05", "create-failed", "p_uthread_create returned NULL");
     rc = p_uthread_join(t);
     if (rc != exit_code) mc_fail("C05", use_return ? "join/code-after-return" : "join/exit-code", "p_uthread_join returned %d, the thread %s %d", rc, use_return ? "function returned, expected" : "called p_uthread_exit with", exit_code);
